@@ -75,6 +75,7 @@ type c21Model struct {
 	queue    [][]int // batches of free ordinals, head first
 	cooldown int
 	slack    int // ages in [cooldown-slack, cooldown] are timing dependent
+	start    time.Time
 	past     []c21Stale
 	// loose[o]: the ordinal has been in the timing-dependent band since it was released, so the
 	// pass that freed it - and with it its place in the free list - is not known to the model.
@@ -82,7 +83,7 @@ type c21Model struct {
 }
 
 func c21NewModel(cooldown, slack int) *c21Model {
-	m := &c21Model{cooldown: cooldown, slack: slack}
+	m := &c21Model{cooldown: cooldown, slack: slack, start: time.Now()}
 	first := make([]int, c21N)
 	for i := range first {
 		first[i] = i
@@ -116,7 +117,14 @@ func (m *c21Model) gc(_ func(ord int) bool) {
 // wall clock decides whether a garbage-collection pass frees it.
 func (m *c21Model) timingDependent(o int) bool {
 	x := m.ords[o]
-	return x.state == c21Cooling && m.cooldown > 0 && x.age <= m.cooldown && x.age >= m.cooldown-m.slack
+	slack := m.slack
+	if slack > 0 {
+		// The library compares ReleasedAt with the wall clock, so the real time that this case
+		// has been running for (large on a heavily loaded machine) widens the band in which
+		// the outcome depends on timing.
+		slack += int(time.Since(m.start)/time.Second) + 1
+	}
+	return x.state == c21Cooling && m.cooldown > 0 && x.age <= m.cooldown && x.age >= m.cooldown-slack
 }
 
 func (m *c21Model) clone() *c21Model {
@@ -215,6 +223,26 @@ func c21BlockString(b *model.AllocationBlock) string {
 		}
 	}
 	fmt.Fprintf(&sb, " unallocated=%v seq=%d", b.Unallocated, b.SequenceNumber)
+	return sb.String()
+}
+
+// c21AllocString lists only the live (not released) allocations of the block.
+func c21AllocString(b *model.AllocationBlock) string {
+	var sb strings.Builder
+	for o, idx := range b.Allocations {
+		if idx == nil {
+			continue
+		}
+		a := b.Attributes[*idx]
+		if a.ReleasedAt != nil {
+			continue
+		}
+		h := "<nil>"
+		if a.HandleID != nil {
+			h = *a.HandleID
+		}
+		fmt.Fprintf(&sb, " %d:%s#%d", o, h, b.GetSequenceNumberForOrdinal(o))
+	}
 	return sb.String()
 }
 
@@ -554,9 +582,13 @@ func c21RunHistory(t *rapid.T, rec *ev.Recorder, ex c21Exec, m *c21Model, nOps i
 					aba = true
 				}
 			}
+			// Only the live allocations are compared around a refused release: whether a
+			// cooling address is freed by the garbage collection that every load performs
+			// depends on the wall clock (and the statement only says that the refused release
+			// frees nothing that is allocated).
 			before := ""
 			if b := ex.block(); b != nil {
-				before = c21BlockString(b)
+				before = c21AllocString(b)
 			}
 			unalloc, err := ex.release(r.rel)
 			log = append(log, fmt.Sprintf("#%d %s -> unallocated %v err=%v", i, r, unalloc, err))
@@ -565,8 +597,8 @@ func c21RunHistory(t *rapid.T, rec *ev.Recorder, ex c21Exec, m *c21Model, nOps i
 					// which options were stale?
 					fail("release with a stale sequence number / different handle was accepted")
 				}
-				if b := ex.block(); b != nil && c21BlockString(b) != before {
-					fail("refused release changed the block:\n before:%s\n after: %s", before, c21BlockString(b))
+				if b := ex.block(); b != nil && c21AllocString(b) != before {
+					fail("refused release changed the block's live allocations:\n before:%s\n after: %s", before, c21AllocString(b))
 				}
 			} else {
 				if err != nil {
